@@ -1,4 +1,4 @@
-import BiotiteModel.Proofs.C07Cryst
+import BiotiteModel.Proofs.C07File
 import BiotiteModel.Gen.C07
 /-!
 # C07 — PDB files round-trip structures and never emit shifted columns: property theorems
@@ -75,6 +75,38 @@ theorem C07_refused (fl : Flags) (s : Struct) (h : checkCompat fl s ≠ .ok ()) 
 /-- x = -999.9996 is refused, x = -999.9994 is accepted -/
 example : checkCoord (⟨true, 16383993, 14⟩, ⟨false, 0, 0⟩, ⟨false, 0, 0⟩) = false ∧
           checkCoord (⟨true, 16383990, 14⟩, ⟨false, 0, 0⟩, ⟨false, 0, 0⟩) = true := by decide
+
+/-! ## non-finite values -/
+
+/-- **NaN / ±inf are refused.**  A structure with a non-finite coordinate, or a non-finite B-factor / occupancy
+in a *present* annotation, is refused with `BadStructureError` before anything is written — although the
+text of these values (`nan`, `inf`, `-inf`) is short enough for every column, so the width test alone
+(`len(format(v, spec)) > n_columns`) would have accepted them: the explicit `isnan` / `isfinite` tests of
+`_check_pdb_compatibility` / `_check_number_columns` are what refuses (`checkNumCol … = false`). -/
+theorem C07_nonfinite_refused (fl : Flags) (cell : Option Cell) (s : StructN)
+    (h : (∃ m ∈ s.models, ∃ c ∈ m, c.1.isFinite = false ∨ c.2.1.isFinite = false ∨ c.2.2.isFinite = false) ∨
+         (∃ a ∈ s.atoms, (fl.hasB = true ∧ a.bf.isFinite = false) ∨ (fl.hasOcc = true ∧ a.occ.isFinite = false))) :
+    writePdbN fl cell s = .error .badStructure ∧
+    (∀ (x : Num) (d w : Nat), x.isFinite = false → (fmtNum d x).length ≤ 4 ∧ checkNumCol d w x = false) := by
+  refine ⟨?_, ?_⟩
+  · have hn : s.finite? fl = none := by
+      rcases h with ⟨m, hm, c, hc, hcf⟩ | ⟨a, ha, haf⟩
+      · exact finite?_none_of_coord fl s m hm c hc hcf
+      · exact finite?_none_of_atom fl s a ha haf
+    simp [writePdbN, hn]
+  · intro x d w hx
+    cases x with
+    | fin f => simp [Num.isFinite] at hx
+    | nan => exact ⟨by simp [fmtNum], by simp [checkNumCol, Num.isFinite]⟩
+    | inf neg => cases neg <;> exact ⟨by simp [fmtNum], by simp [checkNumCol, Num.isFinite]⟩
+
+/-- finite input is handled by the finite model all other theorems speak about -/
+theorem C07_finite_passthrough (fl : Flags) (cell : Option Cell) (s : StructN) (s' : Struct) (h : s.finite? fl = some s') :
+    writePdbN fl cell s = writePdbBox fl cell s' := by
+  simp [writePdbN, h]
+
+example : writePdbN ⟨false, false, false, false, false, false⟩ none
+    { atoms := [], models := [[(.nan, .fin ⟨false, 0, 0⟩, .fin ⟨false, 0, 0⟩)]], bonds := [] } = .error .badStructure := by decide
 
 /-! ## every accepted record has its fields in the fixed columns -/
 
@@ -389,6 +421,46 @@ example :
         ([(0, 1)].filter (carriable [a, a]))).map (ljust 80)) = some (.ok [(0, 1)]) := by decide
 
 
+/-! ## alternate locations -/
+
+/-- **altloc = 'first'.**  The rows are partitioned into residues (`runs`, nothing lost or reordered); inside a
+residue exactly the rows without altloc id and the rows carrying the *first* altloc id that occurs are kept. -/
+theorem C07_altloc_first (rows : List AltRow) :
+    (runs rows).flatten = rows ∧ (∀ run ∈ runs rows, run ≠ []) ∧
+    ∀ run, applyMask (firstMaskRun run) run =
+      run.filter (fun r => noAlt r.alt || (letterIds run).head? == some r.alt) := by
+  refine ⟨runs_flatten rows, runs_ne_nil rows, fun run => ?_⟩
+  rw [firstMaskRun_spec]; exact applyMask_map _ run
+
+/-- **altloc = 'occupancy'.**  Inside a residue exactly the rows without altloc id and the rows carrying the chosen
+id are kept; the chosen id occurs in the residue and has the maximal summed occupancy among all ids
+(nothing is chosen only if no sum exceeds -1.0). -/
+theorem C07_altloc_occupancy (run : List AltRow) :
+    let best := bestId run (sortedIds (letterIds run))
+    applyMask (occMaskRun run) run = run.filter (fun r => noAlt r.alt || (letterIds run != [] && best.2 == some r.alt)) ∧
+    (∀ id, best.2 = some id → id ∈ letterIds run ∧ best.1 = occSum run id) ∧
+    (∀ id ∈ letterIds run, occSum run id ≤ best.1) ∧ (best.2 = none → ∀ id ∈ letterIds run, occSum run id ≤ -100) := by
+  intro best
+  obtain ⟨h1, _, h3, h4⟩ := bestId_spec run (sortedIds (letterIds run))
+  refine ⟨?_, ?_, ?_, ?_⟩
+  · rw [occMaskRun_spec]; exact applyMask_map _ run
+  · intro id hid
+    obtain ⟨hm, he⟩ := h3 id hid
+    exact ⟨(mem_sortedIds _ id).1 hm, he⟩
+  · intro id hid
+    exact h1 id ((mem_sortedIds _ id).2 hid)
+  · intro hn id hid
+    have := h1 id ((mem_sortedIds _ id).2 hid)
+    rw [h4 hn] at this
+    exact this
+
+/-- two alternates A (0.40 + 0.40) and B (0.70 + 0.20): 'first' keeps A, 'occupancy' keeps B; the blank row stays -/
+example :
+    let k : List Char × Int × List Char × List Char := ("A".toList, 5, [], "ALA".toList)
+    let rows : List AltRow := [⟨k, ' ', 100⟩, ⟨k, 'A', 40⟩, ⟨k, 'B', 70⟩, ⟨k, 'A', 40⟩, ⟨k, 'B', 20⟩]
+    altMask .first rows = [true, true, false, true, false] ∧ altMask .occupancy rows = [true, false, true, false, true] := by
+  decide
+
 /-! ## CRYST1 -/
 
 /-- **CRYST1 round trip.**  The box check accepts exactly the cells whose six values fit their columns after
@@ -418,6 +490,129 @@ example : cryst1Line { a := ⟨false, 98765, 3⟩, b := ⟨false, 12799999, 7⟩
 /-- 99999.9996 (float32 100000.0) is refused -/
 example : checkCell { a := ⟨false, 100000, 0⟩, b := ⟨false, 1, 0⟩, c := ⟨false, 1, 0⟩,
                       alpha := ⟨false, 90, 0⟩, beta := ⟨false, 90, 0⟩, gamma := ⟨false, 90, 0⟩ } = false := by decide
+
+/-! ## assembly of the per-model blocks and the whole file -/
+
+theorem cryst1_neutral (u : Cell) : Neutral [cryst1Line u] := by
+  intro x hx
+  simp only [List.mem_singleton] at hx
+  subst hx
+  simp [isAtomLine, isModelLine, startsWith, cryst1Line, litCRYST1, litATOM, litHETATM, litMODEL,
+    prefix_ne _ _ 'A' 'C' (by decide), prefix_ne _ _ 'H' 'C' (by decide), prefix_ne _ _ 'M' 'C' (by decide)]
+
+/-- **stack assembly.**  In a written stack (lines padded to 80 as `PDBFile.read` does, optionally after a neutral
+prefix such as CRYST1) the reader's split into models returns, for every model `m` in order, exactly the records
+written for it — record `j` of model `m` is `atomLine halves[j] models[m][j]`, so the reader's reshape puts it
+at `[m, j]` — and if every model has one coordinate triple per atom all blocks have the same length
+(`_get_model_length` accepts). -/
+theorem C07_stack_assembly (fl : Flags) (s : Struct) (pre lines : List (List Char)) (h : writePdb fl s = .ok lines)
+    (hpre : Neutral pre) (hM : 2 ≤ s.models.length) :
+    ∃ ids ress : List (List Char),
+      ids.length = s.atoms.length ∧ ress.length = s.atoms.length ∧
+      splitModels ((pre ++ lines).map (ljust 80)) =
+        s.models.map (fun m => (recordsOf (halvesOf fl s.atoms ids ress) m).map (ljust 80)) ∧
+      ((∀ m ∈ s.models, m.length = s.atoms.length) →
+        ∀ blk ∈ splitModels ((pre ++ lines).map (ljust 80)), blk.length = s.atoms.length) := by
+  obtain ⟨ids, ress, hi, hr, hsp⟩ := splitModels_written fl s pre lines h hpre hM
+  have h1 : ids.length = s.atoms.length := by have := mapME_length _ _ _ hi; simpa [enum_length] using this
+  have h2 : ress.length = s.atoms.length := mapME_length _ _ _ hr
+  refine ⟨ids, ress, h1, h2, hsp, ?_⟩
+  intro hN blk hb
+  rw [hsp] at hb
+  obtain ⟨m, hm, rfl⟩ := List.mem_map.1 hb
+  simp [recordsOf_length _ m (by rw [halvesOf_length fl s.atoms ids ress h1 h2]; exact hN m hm),
+    halvesOf_length fl s.atoms ids ress h1 h2]
+
+/-- models of unequal length are refused (`_get_model_length` raises `InvalidFileError`) -/
+theorem C07_unequal_models_rejected (b : Bool) (lines : List (List Char)) (m1 : List (List Char)) (ms : List (List (List Char)))
+    (hs : splitModels (lines.map (ljust 80)) = m1 :: ms)
+    (hsum : ((m1 :: ms).map List.length).sum = ((lines.map (ljust 80)).filter isAtomLine).length)
+    (hne : ∃ m ∈ ms, m.length ≠ m1.length) : readPdb b lines = some (.error .invalidFile) := by
+  obtain ⟨m, hm, hl⟩ := hne
+  have hany : (m1 :: ms).any (fun m => m.length != m1.length) = true := by
+    rw [List.any_eq_true]
+    exact ⟨m, List.mem_cons_of_mem _ hm, by simpa using hl⟩
+  unfold readPdb
+  simp only [hs, hsum, bne_self_eq_false, Bool.false_eq_true, if_false, hany, if_true]
+
+/-- **whole file (record level).**  For a stack with a box whose atoms and coordinates are accepted by the check, with
+blank-free fields, non-empty elements and ids in range: the written file starts with the CRYST1 record, which
+the reader returns to CRYST1 precision; the reader's model split returns the per-model records (each exactly 80
+characters, so padding changes nothing); and every record `[m, j]` is read back as atom `j` with the
+coordinates of model `m` rounded to 10⁻³.  (CONECT: `C07_conect_roundtrip` applies to the same file — its `other`
+records are arbitrary non-CONECT lines.) -/
+theorem C07_file_roundtrip (fl : Flags) (u : Cell) (s : Struct) (lines : List (List Char))
+    (h : writePdbBox fl (some u) s = .ok lines) (hM : 2 ≤ s.models.length)
+    (hN : ∀ m ∈ s.models, m.length = s.atoms.length)
+    (hA : ∀ j, (hj : j < s.atoms.length) → CompatStrong fl j s.atoms[j] ∧ Clean s.atoms[j] ∧ IdsInRange fl j s.atoms[j] ∧
+      s.atoms[j].element ≠ [])
+    (hC : ∀ m ∈ s.models, ∀ c ∈ m, CoordStrong c) :
+    readCell lines = some (some (expectedCell u)) ∧
+    ∃ ids ress : List (List Char),
+      ids.length = s.atoms.length ∧ ress.length = s.atoms.length ∧
+      splitModels (lines.map (ljust 80)) = s.models.map (recordsOf (halvesOf fl s.atoms ids ress)) ∧
+      ∀ m, (hm : m < s.models.length) → ∀ j, (hj : j < s.atoms.length) →
+        ∃ hr : j < (recordsOf (halvesOf fl s.atoms ids ress) s.models[m]).length,
+          ((recordsOf (halvesOf fl s.atoms ids ress) s.models[m])[j]).length = 80 ∧
+          parseAtomLine ((recordsOf (halvesOf fl s.atoms ids ress) s.models[m])[j]) = some (.ok (expectedRead fl j s.atoms[j])) ∧
+          parseCoordLine ((recordsOf (halvesOf fl s.atoms ids ress) s.models[m])[j]) =
+            some (.ok (((s.models[m])[j]'(by rw [hN _ (List.getElem_mem hm)]; exact hj)).1.units 3,
+                       ((s.models[m])[j]'(by rw [hN _ (List.getElem_mem hm)]; exact hj)).2.1.units 3,
+                       ((s.models[m])[j]'(by rw [hN _ (List.getElem_mem hm)]; exact hj)).2.2.units 3)) := by
+  -- unpack the writer
+  unfold writePdbBox at h
+  simp only at h
+  split at h
+  · rename_i hcell
+    cases hw : writePdb fl s with
+    | error e => rw [hw] at h; cases h
+    | ok body =>
+      rw [hw] at h
+      simp only [Except.ok.injEq] at h
+      subst h
+      refine ⟨readCell_written u hcell body, ?_⟩
+      obtain ⟨ids, ress, hi, hr, hsp⟩ := splitModels_written fl s [cryst1Line u] body hw (cryst1_neutral u) hM
+      have h1 : ids.length = s.atoms.length := by have := mapME_length _ _ _ hi; simpa [enum_length] using this
+      have h2 : ress.length = s.atoms.length := mapME_length _ _ _ hr
+      have hhl := halvesOf_length fl s.atoms ids ress h1 h2
+      -- every record: 80 characters, parses back
+      have hrec : ∀ m, (hm : m < s.models.length) → ∀ j, (hj : j < s.atoms.length) →
+          ∃ hr : j < (recordsOf (halvesOf fl s.atoms ids ress) s.models[m]).length,
+            ((recordsOf (halvesOf fl s.atoms ids ress) s.models[m])[j]).length = 80 ∧
+            parseAtomLine ((recordsOf (halvesOf fl s.atoms ids ress) s.models[m])[j]) = some (.ok (expectedRead fl j s.atoms[j])) ∧
+            parseCoordLine ((recordsOf (halvesOf fl s.atoms ids ress) s.models[m])[j]) =
+              some (.ok (((s.models[m])[j]'(by rw [hN _ (List.getElem_mem hm)]; exact hj)).1.units 3,
+                         ((s.models[m])[j]'(by rw [hN _ (List.getElem_mem hm)]; exact hj)).2.1.units 3,
+                         ((s.models[m])[j]'(by rw [hN _ (List.getElem_mem hm)]; exact hj)).2.2.units 3)) := by
+        intro m hm j hj
+        have hcl : j < (s.models[m]).length := by rw [hN _ (List.getElem_mem hm)]; exact hj
+        obtain ⟨hx, hxe⟩ := recordsOf_getElem (halvesOf fl s.atoms ids ress) s.models[m] j (by rw [hhl]; exact hj) hcl
+        obtain ⟨_, hhe⟩ := halvesOf_getElem fl s.atoms ids ress h1 h2 j hj
+        have hidj := mapME_getElem _ _ _ hi j (by simpa [enum_length] using hj) (by omega)
+        rw [enum_getElem] at hidj
+        have hresj := mapME_getElem _ _ _ hr j hj (by omega)
+        obtain ⟨hcs, hcln, hrg, hel⟩ := hA j hj
+        have hcs3 := hC _ (List.getElem_mem hm) _ (List.getElem_mem hcl)
+        have hcol := C07_columns fl j s.atoms[j] (s.models[m])[j] _ _ hcs hcs3 hcln hidj hresj
+        have hrt := C07_atom_roundtrip fl j s.atoms[j] (s.models[m])[j] _ _ hcs hcs3 hcln hrg hel hidj hresj
+        refine ⟨hx, ?_⟩
+        rw [hxe, hhe]
+        exact ⟨hcol.1, hrt.1, hrt.2⟩
+      refine ⟨ids, ress, h1, h2, ?_, hrec⟩
+      have hcons : (cryst1Line u :: body) = [cryst1Line u] ++ body := rfl
+      rw [hcons, hsp]
+      apply List.map_congr_left
+      intro m hmm
+      obtain ⟨mi, hmi, rfl⟩ := List.mem_iff_getElem.1 hmm
+      apply List.ext_getElem
+      · simp
+      · intro j hj1 hj2
+        simp only [List.getElem_map]
+        have hjl : j < s.atoms.length := by
+          rw [recordsOf_length _ _ (by rw [hhl]; exact hN _ (List.getElem_mem hmi)), hhl] at hj2; exact hj2
+        obtain ⟨_, hlen, _, _⟩ := hrec mi hmi j hjl
+        simp [ljust, hlen]
+  · cases h
 
 /-! ## obligations on the tables regenerated from `file.py` / `hybrid36.pyx` (`Gen/C07.lean`) -/
 section Gen
